@@ -44,6 +44,17 @@ class RecordingDict(dict):
             self[k] = v
 
 
+_DEFAULT_CODES = None
+
+
+def default_codes():
+    global _DEFAULT_CODES
+    if _DEFAULT_CODES is None:
+        from pykdebugparser.trace_codes import default_trace_codes
+        _DEFAULT_CODES = default_trace_codes()
+    return _DEFAULT_CODES
+
+
 class AEv:
     __slots__ = ('abs', 'debugid', 'ctid', 'words', 'data', 'name')
 
@@ -58,9 +69,8 @@ class AEv:
 
 class World:
     def __init__(self, rnd, codes=None, big_tids=True):
-        from pykdebugparser.trace_codes import default_trace_codes
         self.rnd = rnd
-        self.codes = dict(default_trace_codes()) if codes is None else codes
+        self.codes = dict(default_codes()) if codes is None else codes
         self.name2id = {}
         for i, n in self.codes.items():
             if i & 3 == 0:
